@@ -19,10 +19,14 @@ CHECKS = {
          "Exhaustive for all lines of up to 8 (quick) / 9 (thorough) symbols over a 6-symbol alphabet covering every tokenizer state; round trip and long lines sampled.", "6/C07"),
  "C08": ("exploration", "exhaustive enumeration of small token lists + random lists, differential against a reference classifier",
          "Exhaustive for small lists over a 6-symbol alphabet; random beyond; both through ArgList directly and through the whole Cli.", "6/C08"),
+ "C09": ("exploration", "generated programs (declarations compiled with the real derive macros) x generated lines, differential against an interpreter of the declaration model",
+         "Declarations are sampled from a grammar covering the derive attributes and compiled by the repository's macros at check time; lines are proptest strategies built from each declaration's model and shrink as values. Program space is sampled, not exhausted.", "6/C09"),
  "C10": ("exploration", "state-space closure of a list model replayed on the real History + random op sequences + Cli sessions",
          "Every edge of the closure for small history buffers is replayed (exhaustive for those sizes and lines); random sequences up to 40-byte buffers; Cli sessions read the history back with Up/Down walks.", "6/C10"),
  "C11": ("exploration", "PBT over generated name sets x lines x cursor x buffer size against a longest-common-continuation model",
-         "Library half with generated names through a protocol-conforming Autocomplete impl, derived half with fixed derived enum/group compiled by the repository's macros; sampled.", "6/C11"),
+         "Library half with generated names through a protocol-conforming Autocomplete impl, derived half with a fixed derived enum/group, macro half with generated declarations compiled by the repository's macros; sampled.", "6/C11"),
+ "C12": ("exploration", "generated programs x generated help-shaped lines; routing oracle + containment of every declared fact in the help output",
+         "Same generated declarations as C09; help output is checked for every fact the declaration states (names, summaries, usage path, positionals, options, sub-commands) without pinning layout.", "6/C12"),
  "C13": ("exploration", "model-based PBT of output scripts against a framing model on bytes and on a terminal emulator",
          "Random output scripts (all writer entry points, arbitrary splits) at random points of sessions; sampled.", "6/C13"),
  "C14": ("fault_enumeration", "exhaustive single-fault injection at every sink call of a scenario corpus (once and permanent) + random faults in generated sessions",
@@ -35,8 +39,6 @@ CHECKS = {
 
 NOT_YET = {
  "C03": "check under construction (fuzz target + raw sessions); not yet registered",
- "C09": "check under construction (declaration generator); not yet registered",
- "C12": "check under construction (declaration generator); not yet registered",
  "C16": "check under construction (feature-matrix runner); not yet registered",
 }
 
